@@ -221,11 +221,13 @@ namespace wc
 #endif
   };
 
-  inline WorldCfg draw_cfg(int lmax_cap_2d, int lmax_cap_3d, bool allow_3d = true)
+  inline WorldCfg draw_cfg(int lmax_cap_2d, int lmax_cap_3d, bool allow_3d = true, bool allow_charts = false)
   {
     WorldCfg c;
-    static const char* files[6] = {"unit-square-quad.xml", "unit-square-tria.xml", "l-shape-quad.xml", "unit-cube-hexa.xml", "l-shape-tria.xml", "unit-cube-tetra.xml"};
-    c.mesh = int(sim::cfg_weighted("mesh", {5, 3, 3, allow_3d ? 2 : 0, 2, allow_3d ? 1 : 0}));
+    // 6..8: meshes whose boundary mesh parts are linked to charts (refinement projects new boundary vertices onto a circle)
+    static const char* files[9] = {"unit-square-quad.xml", "unit-square-tria.xml", "l-shape-quad.xml", "unit-cube-hexa.xml", "l-shape-tria.xml", "unit-cube-tetra.xml",
+      "unit_circle_quad_5.xml", "unit_circle_tria_4.xml", "square_circle_hole_quad_9.xml"};
+    c.mesh = int(sim::cfg_weighted("mesh", {5, 3, 3, allow_3d ? 2 : 0, 2, allow_3d ? 1 : 0, allow_charts ? 2 : 0, allow_charts ? 2 : 0, allow_charts ? 1 : 0}));
     c.mesh_file = files[c.mesh];
     const bool is3d = (c.mesh == 3 || c.mesh == 5);
     static const int ns[16] = {1, 2, 2, 3, 3, 4, 4, 5, 6, 7, 8, 8, 9, 12, 15, 16};
